@@ -46,6 +46,9 @@ def _gen_file(rng, formats, tier, max_frames=None):
         knobs['compression'] = rng.choice(['zlib', None])
     if fmt == 'nc' and rng.chance(0.4):
         knobs['backend'] = 'scipy'          # the scipy.io.netcdf fallback, selected the way the test-suite does (hide netCDF4)
+    if fmt == 'lammpstrj':
+        # legal `dump custom` column layouts other than the one mdtraj writes (the reader detects the columns per file)
+        knobs['layout'] = rng.choice(['std', 'std', 'mol_first', 'reordered'])
     return {'fmt': fmt, 'n_frames': n, 'n_atoms': n_atoms, 'cell': cell, 'seed': rng.below(1 << 30), 'knobs': knobs}
 
 
@@ -119,6 +122,8 @@ def generate(check, rng, tier, run_index):
         f['n_atoms'] = files[0]['n_atoms']
         f['cell'] = files[0]['cell']
         f['knobs'] = dict(files[0]['knobs'])
+        if f['fmt'] == 'lammpstrj':
+            f['knobs']['layout'] = rng.choice(['std', 'mol_first', 'reordered'])     # files of one format may differ in column layout
     subsets = _gen_subsets(rng)
     handles = [{'file': rng.below(nfiles)} for _ in range(2)]
     ops = []
@@ -212,6 +217,8 @@ class World(object):
                     f.topology = t.topology
             else:
                 t.save(path, **kw)
+            if fs['fmt'] == 'lammpstrj' and fs['knobs'].get('layout', 'std') != 'std':
+                _relayout_lammpstrj(path, fs['knobs']['layout'])
             x, tm, L, A = fmts.tagged_arrays(fs['n_frames'], fs['n_atoms'], fs['cell'], fs['seed'])
             top_path = os.path.join(workdir, 'top%d.pdb' % k)
             self.files.append({'spec': fs, 'path': path, 'traj': t, 'xyz': x, 'time': tm, 'L': L, 'A': A,
@@ -229,6 +236,26 @@ class World(object):
         if kind == 'shared':
             return f['shared_top']
         return f['traj'].topology.copy()
+
+
+def _relayout_lammpstrj(path, layout):
+    """rewrite the ATOMS sections of a file written by mdtraj ('id type xu yu zu') in another legal column layout"""
+    out = []
+    in_atoms = False
+    with open(path) as fh:
+        for line in fh:
+            if line.startswith('ITEM:'):
+                in_atoms = line.startswith('ITEM: ATOMS')
+                if in_atoms:
+                    line = 'ITEM: ATOMS mol id type xu yu zu\n' if layout == 'mol_first' else 'ITEM: ATOMS type zu id q xu yu\n'
+                out.append(line)
+                continue
+            if in_atoms and line.strip():
+                i, ty, x, y, z = line.split()
+                line = ('1 %s %s %s %s %s\n' % (i, ty, x, y, z)) if layout == 'mol_first' else ('%s %s %s 0.5 %s %s\n' % (ty, z, i, x, y))
+            out.append(line)
+    with open(path, 'w') as fh:
+        fh.writelines(out)
 
 
 def _open(world, k):
